@@ -1,7 +1,7 @@
 """C02 -- the verdict is 'failed' exactly when something went wrong (verdict data flow)."""
 import ast
 
-from .common import (Ctx, call_name, calls_in, dotted, eval_bool, is_name, kw, node_calls,
+from .common import (alias_dotted, Ctx, call_name, calls_in, dotted, eval_bool, is_name, kw, node_calls,
                      nodes_calling, norm, own_calls, params, truth_test)
 
 P = 'C02'
@@ -234,7 +234,7 @@ def r3_channels(ctx, rep, R='C02.R3'):
             isinstance(n.func, ast.Attribute) and n.func.attr == 'pop' and n.args and
             isinstance(n.args[0], ast.Constant) and n.args[0].value is None]
     stores = [n for n in ast.walk(fg.node) if isinstance(n, ast.Assign) and any(
-        dotted(t) == 'self.runner.import_errors' for t in n.targets)]
+        alias_dotted(fg.node, t) == 'self.runner.import_errors' for t in n.targets)]
     okf = len(pops) == 1 and len(stores) == 1
     if okf:
         tgt = [dotted(t) for n in ast.walk(fg.node) if isinstance(n, ast.Assign) and n.value is pops[0]
